@@ -10,10 +10,6 @@ theorem applySteps_append (w : World) (a b : List Step) :
     applySteps w (a ++ b) = applySteps (applySteps w a) b := by
   simp [applySteps, List.foldl_append]
 
-/-- The extracted facts the step model rests on (a change in the source changes these terms). -/
-theorem rows_one_commit_each : Generated.rowsOneCommitEach = true := rfl
-theorem memo_single_write : Generated.memoSingleWrite = true := rfl
-
 theorem neighboursBy_eq (g : G) (t : Nat) : neighboursBy Generated.neighbourOrder g t = neighbours g t := by
   simp [neighboursBy, Generated.neighbourOrder, neighbours]
 
@@ -155,6 +151,272 @@ theorem applySteps_build (F : BodyFn) (P : Project) (cfg : Cfg) (w : World) (pic
       · rename_i so' s' hloop
         cases h
         exact applySteps_loop F P g cfg picks so _ so' s' hloop
+
+end Engine
+end Pytask
+
+/-! ## Association lists -/
+namespace Pytask
+namespace Engine
+
+theorem lookup_insert_self {κ} [BEq κ] [LawfulBEq κ] (m : List (κ × Nat)) (k : κ) (v : Nat) :
+    lookup (insert m k v) k = some v := by
+  simp [lookup, insert]
+
+theorem lookup_insert_ne {κ} [BEq κ] [LawfulBEq κ] (m : List (κ × Nat)) (k k' : κ) (v : Nat) (h : k' ≠ k) :
+    lookup (insert m k v) k' = lookup m k' := by
+  unfold lookup insert
+  have hk : (k == k') = false := by simpa using (Ne.symm h)
+  simp only [List.find?_cons, hk]
+  induction m with
+  | nil => rfl
+  | cons e m ih =>
+    by_cases he : (e.1 == k) = true
+    · have he' : (e.1 == k') = false := by
+        have : e.1 = k := by simpa using he
+        simpa [this] using (Ne.symm h)
+      simp only [List.filter_cons, he, Bool.not_true, Bool.false_eq_true, if_false, List.find?_cons, he']
+      exact ih
+    · simp only [List.filter_cons, he, Bool.not_false, if_true, List.find?_cons]
+      cases hek : (e.1 == k') with
+      | true => rfl
+      | false => exact ih
+
+end Engine
+end Pytask
+
+/-! ## The invariants -/
+namespace Pytask
+namespace Engine
+
+/-- Every neighbour of `t` (dependencies, products of `after` targets, the task's module, products) exists and its row for
+`t` equals its current state: exactly the condition under which `pytask_execute_task_setup` raises `SkippedUnchanged`. -/
+def RowsMatch (P : Project) (g : G) (w : World) (t : Nat) : Prop :=
+  ∀ v ∈ neighbours g t, ∃ h, stateOf P w v = some h ∧ lookup w.db (tv t, v) = some h
+
+/-- The products of `t` on disk are what its body produces from the module and dependency contents on disk. -/
+def Fresh (F : BodyFn) (w : World) (t : TaskSpec) : Prop :=
+  ∀ pi ∈ t.prods.zipIdx, lookup w.fs pi.1 = some (F t.id pi.2 (lookup w.fs t.src) (t.deps.map (lookup w.fs)))
+
+/-- The C02 invariant: a task that pytask would report unchanged has fresh products. -/
+def Inv (F : BodyFn) (P : Project) (g : G) (w : World) : Prop :=
+  ∀ t ∈ P.tasks, RowsMatch P g w t.id → Fresh F w t
+
+/-- The rows of `t`, if complete, are one consistent snapshot: the recorded product states are what the body produces from
+the recorded module and dependency states. A statement about the database only — no file edit can break it. -/
+def RowsConsistent (F : BodyFn) (g : G) (db : DB) (t : TaskSpec) : Prop :=
+  (∀ v ∈ neighbours g t.id, (lookup db (tv t.id, v)).isSome = true) →
+  ∀ pi ∈ t.prods.zipIdx, lookup db (tv t.id, nv pi.1) =
+    some (F t.id pi.2 (lookup db (tv t.id, tv t.id)) (t.deps.map (fun d => lookup db (tv t.id, nv d))))
+
+def RC (F : BodyFn) (P : Project) (g : G) (db : DB) : Prop := ∀ t ∈ P.tasks, RowsConsistent F g db t
+
+/-- Well-formedness of a project w.r.t. the graph of the build. `find`: task ids are unique. `deps`/`prods`: the graph
+contains the declared edges (`_create_dag_from_tasks`). `disj`: no task consumes its own product or writes its own module
+(`_check_if_dag_has_cycles`). `nodup`: one node per product path. `honest`: a body that returns normally has written every
+product (the premise "task bodies write their declared products"). `noPersist`: `@pytask.mark.persist` deliberately records
+stale products and is outside the claim (as in C02). -/
+structure WF (P : Project) (g : G) : Prop where
+  find : ∀ t ∈ P.tasks, Project.find? P t.id = some t
+  deps : ∀ t ∈ P.tasks, ∀ d ∈ t.deps, nv d ∈ neighbours g t.id
+  prods : ∀ t ∈ P.tasks, ∀ p ∈ t.prods, nv p ∈ neighbours g t.id
+  nodup : ∀ t ∈ P.tasks, t.prods.Nodup
+  disj : ∀ t ∈ P.tasks, ∀ p ∈ t.prods, p ∉ t.deps ∧ p ≠ t.src
+  honest : ∀ t ∈ P.tasks, ∀ k, t.beh ≠ .omits k
+  noPersist : ∀ t ∈ P.tasks, t.persist = false
+
+theorem stateOf_nv (P : Project) (w : World) (n : Nat) : stateOf P w (nv n) = lookup w.fs n := by
+  unfold stateOf nv isTaskV
+  have h1 : ((2 * n + 1) % 2 == 0) = false := by
+    have : (2 * n + 1) % 2 = 1 := by omega
+    simp [this]
+  have h2 : (2 * n + 1) / 2 = n := by omega
+  simp [h2]
+
+theorem stateOf_tv (P : Project) (w : World) (t : Nat) (spec : TaskSpec) (h : Project.find? P t = some spec) :
+    stateOf P w (tv t) = lookup w.fs spec.src := by
+  unfold stateOf tv isTaskV
+  have h1 : ((2 * t) % 2 == 0) = true := by
+    have : (2 * t) % 2 = 0 := by omega
+    simp [this]
+  have h2 : (2 * t) / 2 = t := by omega
+  simp [h2, h]
+
+theorem tv_mem_neighbours (g : G) (t : Nat) : tv t ∈ neighbours g t := by simp [neighbours]
+
+theorem tv_ne_of_ne {a b : Nat} (h : a ≠ b) : tv a ≠ tv b := by unfold tv; omega
+
+theorem wf_id_inj {P : Project} {g : G} (hwf : WF P g) {t u : TaskSpec} (ht : t ∈ P.tasks) (hu : u ∈ P.tasks)
+    (h : t.id = u.id) : t = u := by
+  have h1 := hwf.find t ht
+  have h2 := hwf.find u hu
+  rw [h] at h1
+  rw [h1] at h2
+  exact Option.some.inj h2
+
+/-- `RC` gives `Inv` whatever the files are. -/
+theorem inv_of_rc {F : BodyFn} {P : Project} {g : G} (hwf : WF P g) (w : World) (hrc : RC F P g w.db) : Inv F P g w := by
+  intro t ht hm pi hpi
+  have hall : ∀ v ∈ neighbours g t.id, (lookup w.db (tv t.id, v)).isSome = true := by
+    intro v hv
+    obtain ⟨h, _, h2⟩ := hm v hv
+    simp [h2]
+  have hrow := hrc t ht hall pi hpi
+  have row_eq : ∀ v ∈ neighbours g t.id, lookup w.db (tv t.id, v) = stateOf P w v := by
+    intro v hv
+    obtain ⟨h, h1, h2⟩ := hm v hv
+    rw [h1, h2]
+  have hp : pi.1 ∈ t.prods := by
+    have := List.mem_zipIdx hpi
+    simp at this
+    rw [this.2]
+    exact List.getElem_mem _
+  rw [row_eq _ (hwf.prods t ht _ hp), stateOf_nv] at hrow
+  rw [hrow, row_eq _ (tv_mem_neighbours g t.id), stateOf_tv P w t.id t (hwf.find t ht)]
+  congr 2
+  apply List.map_congr_left
+  intro d hd
+  rw [row_eq _ (hwf.deps t ht d hd), stateOf_nv]
+
+end Engine
+end Pytask
+
+/-! ## What steps touch -/
+namespace Pytask
+namespace Engine
+
+def OnlyWrites (st : List Step) : Prop := ∀ s ∈ st, ∃ n c, s = Step.write n c
+def OnlyRowsOf (t : Nat) (st : List Step) : Prop := ∀ s ∈ st, ∃ v h, s = Step.row t v h
+
+theorem OnlyWrites.take {st : List Step} (h : OnlyWrites st) (k : Nat) : OnlyWrites (st.take k) :=
+  fun s hs => h s (List.mem_of_mem_take hs)
+theorem OnlyRowsOf.take {t : Nat} {st : List Step} (h : OnlyRowsOf t st) (k : Nat) : OnlyRowsOf t (st.take k) :=
+  fun s hs => h s (List.mem_of_mem_take hs)
+
+theorem applySteps_onlyWrites_db {st : List Step} (h : OnlyWrites st) (w : World) : (applySteps w st).db = w.db := by
+  induction st generalizing w with
+  | nil => rfl
+  | cons s st ih =>
+    obtain ⟨n, c, rfl⟩ := h s (by simp)
+    rw [applySteps_cons, ih (fun s hs => h s (List.mem_cons_of_mem _ hs))]
+    rfl
+
+theorem applySteps_onlyRows_fs {t : Nat} {st : List Step} (h : OnlyRowsOf t st) (w : World) : (applySteps w st).fs = w.fs := by
+  induction st generalizing w with
+  | nil => rfl
+  | cons s st ih =>
+    obtain ⟨v, x, rfl⟩ := h s (by simp)
+    rw [applySteps_cons, ih (fun s hs => h s (List.mem_cons_of_mem _ hs))]
+    rfl
+
+theorem applySteps_onlyRows_other {t : Nat} {st : List Step} (h : OnlyRowsOf t st) (w : World) (u x : Nat) (hu : u ≠ t) :
+    lookup (applySteps w st).db (tv u, x) = lookup w.db (tv u, x) := by
+  induction st generalizing w with
+  | nil => rfl
+  | cons s st ih =>
+    obtain ⟨v, y, rfl⟩ := h s (by simp)
+    rw [applySteps_cons, ih (fun s hs => h s (List.mem_cons_of_mem _ hs))]
+    simp only [applyStep]
+    apply lookup_insert_ne
+    intro heq
+    exact tv_ne_of_ne hu (by simpa using congrArg Prod.fst heq)
+
+theorem rowSteps_onlyRows (P : Project) (w : World) (t : Nat) (vs : List Nat) : OnlyRowsOf t (rowSteps P w t vs) := by
+  induction vs with
+  | nil => intro s hs; cases hs
+  | cons v vs ih =>
+    unfold rowSteps
+    cases hst : stateOf P w v with
+    | none => intro s hs; cases hs
+    | some x =>
+      intro s hs
+      rcases List.mem_cons.1 hs with rfl | hs
+      · exact ⟨v, x, rfl⟩
+      · exact ih s hs
+
+theorem writeSteps_onlyWrites (F : BodyFn) (t : TaskSpec) (fs : FS) (skip : Option Nat) : OnlyWrites (writeSteps F t fs skip) := by
+  intro s hs
+  unfold writeSteps at hs
+  simp only [List.mem_filterMap] at hs
+  obtain ⟨pi, _, hpi⟩ := hs
+  split at hpi
+  · cases hpi
+  · exact ⟨_, _, (Option.some.inj hpi).symm⟩
+
+theorem bodySteps_onlyWrites (F : BodyFn) (t : TaskSpec) (fs : FS) : OnlyWrites (bodySteps F t fs) := by
+  unfold bodySteps
+  split
+  · intro s hs; cases hs
+  · cases t.beh <;> first | exact writeSteps_onlyWrites F t fs _ | (intro s hs; cases hs)
+
+theorem phaseSteps_onlyWrites (F : BodyFn) (P : Project) (g : G) (cfg : Cfg) (s : Sess) (t : TaskSpec) :
+    OnlyWrites (phaseSteps F P g cfg s t) := by
+  unfold phaseSteps
+  split
+  · split
+    · intro s hs; cases hs
+    · exact bodySteps_onlyWrites F t _
+  · intro s hs; cases hs
+
+theorem reportSteps_onlyRows (P : Project) (g : G) (cfg : Cfg) (s : Sess) (t : TaskSpec) (r : Raised) :
+    OnlyRowsOf t.id (reportSteps P g cfg s t r) := by
+  unfold reportSteps
+  split
+  · exact rowSteps_onlyRows P s.w t.id _
+  · intro s hs; cases hs
+
+/-- Transfer of row consistency between databases that agree on the rows of `t`. -/
+theorem RowsConsistent.congr {F : BodyFn} {g : G} {db db' : DB} {t : TaskSpec}
+    (h : ∀ x, lookup db' (tv t.id, x) = lookup db (tv t.id, x)) (hc : RowsConsistent F g db t) : RowsConsistent F g db' t := by
+  intro hall pi hpi
+  have := hc (fun v hv => by rw [← h]; exact hall v hv) pi hpi
+  rw [h, this, h]
+  congr 2
+  apply List.map_congr_left
+  intro d _
+  rw [h]
+
+/-- L1: steps that only write files keep `Inv` as long as the rows are consistent. -/
+theorem inv_after_writes {F : BodyFn} {P : Project} {g : G} (hwf : WF P g) (w : World) (hrc : RC F P g w.db)
+    {st : List Step} (h : OnlyWrites st) : Inv F P g (applySteps w st) :=
+  inv_of_rc hwf _ (by rw [applySteps_onlyWrites_db h]; exact hrc)
+
+/-- L2: while the rows of `spec` are being committed one by one, `Inv` holds: `spec`'s products are fresh whatever its rows
+say, every other task still has a consistent row set. -/
+theorem inv_after_rows {F : BodyFn} {P : Project} {g : G} (hwf : WF P g) (w : World) (hrc : RC F P g w.db)
+    (spec : TaskSpec) (hspec : spec ∈ P.tasks) (hfresh : Fresh F w spec) {st : List Step} (h : OnlyRowsOf spec.id st) :
+    Inv F P g (applySteps w st) := by
+  intro u hu hm
+  by_cases heq : u = spec
+  · subst heq
+    intro pi hpi
+    rw [applySteps_onlyRows_fs h]
+    exact hfresh pi hpi
+  · have hid : u.id ≠ spec.id := fun hid => heq (wf_id_inj hwf hu hspec hid)
+    have hcu : RowsConsistent F g (applySteps w st).db u :=
+      RowsConsistent.congr (fun x => applySteps_onlyRows_other h w u.id x hid) (hrc u hu)
+    -- the argument of `inv_of_rc`, for the single task `u`
+    have hall : ∀ v ∈ neighbours g u.id, (lookup (applySteps w st).db (tv u.id, v)).isSome = true := by
+      intro v hv
+      obtain ⟨x, _, h2⟩ := hm v hv
+      simp [h2]
+    intro pi hpi
+    have hrow := hcu hall pi hpi
+    have row_eq : ∀ v ∈ neighbours g u.id, lookup (applySteps w st).db (tv u.id, v) = stateOf P (applySteps w st) v := by
+      intro v hv
+      obtain ⟨x, h1, h2⟩ := hm v hv
+      rw [h1, h2]
+    have hp : pi.1 ∈ u.prods := by
+      have := List.mem_zipIdx hpi
+      simp at this
+      rw [this.2]
+      exact List.getElem_mem _
+    rw [row_eq _ (hwf.prods u hu _ hp), stateOf_nv] at hrow
+    rw [hrow, row_eq _ (tv_mem_neighbours g u.id), stateOf_tv P _ u.id u (hwf.find u hu)]
+    congr 2
+    apply List.map_congr_left
+    intro d hd
+    rw [row_eq _ (hwf.deps u hu d hd), stateOf_nv]
 
 end Engine
 end Pytask
